@@ -205,6 +205,8 @@ def build_agent(spec, shared_cfg=None):
         ids = list(reversed(AGENT_IDS)) if spec.get("ids") == "rev" else list(AGENT_IDS)   # caller-chosen (unsorted) order
         osp = [obs_space(family) for _ in ids]
         asp = [act_space(algo) for _ in ids]
+        if spec.get("hetero") and family == "vector":     # non-uniform shapes: the second agent observes 5 numbers, not 3
+            osp[1] = spaces.Box(-1.0, 1.0, (5,), np.float32)
         return cls(osp, asp, agent_ids=ids, **kw)
     return cls(obs_space(family), act_space(algo), **kw)
 
@@ -837,12 +839,19 @@ def apply_mutation(agent, kind, seed):
     return out[0]
 
 
+_TS_CACHE = {}
+
+
 def apply_select(pop, draws, elitism=True, tournament_size=2):
     """TournamentSelection.select with scripted tournaments: tournament k draws index draws[k] tournament_size
     times, so its winner is draws[k] whatever the ranking; the agents' last fitness (distinct values) decides the elite.
     Returns (new population + [elite], elite index in the old population)."""
     import agilerl.hpo.tournament as T
-    ts = T.TournamentSelection(tournament_size, elitism, len(draws) + (1 if elitism else 0), 1)
+    # one helper object per configuration, reused on every population of the process (state must not persist in it)
+    key = (tournament_size, elitism, len(draws) + (1 if elitism else 0))
+    ts = _TS_CACHE.get(key)
+    if ts is None:
+        ts = _TS_CACHE[key] = T.TournamentSelection(tournament_size, elitism, len(draws) + (1 if elitism else 0), 1)
     it = iter(draws)
     orig = np.random.randint
 
